@@ -330,7 +330,21 @@ func ruleSwitchOnFollow(c *Ctx) {
 			if b := c.baseArgOf(call); b != nil {
 				t.baseSources(b, 0, bs)
 			}
-			if !ls["transitive"] {
+			// the switched loader must have been obtained AFTER the $ref was followed: it takes the document it
+			// works on from the cache, which the resolution has only just filled
+			early := false
+			if l := c.loaderArgOf(fam, call); l != nil {
+				if id, isId := unparen(l).(*ast.Ident); isId {
+					for _, d := range t.defsBefore(c.objOf(id)) {
+						if dc, isCall := unparen(d).(*ast.CallExpr); isCall && c.isSpecMethod(dc, fam.loader.Obj().Name(), "transitiveResolver") && dc.Pos() < follow.Pos() {
+							early = true
+						}
+					}
+				}
+			}
+			if early {
+				okAll, why = false, fmt.Sprintf("the loader handed to %s was switched BEFORE the $ref was followed: on first contact with a document the cache does not hold it yet, so the switched loader has no root and fragment-only refs inside that document resolve differently with a cold and with a warm cache", funcDisplay(g))
+			} else if !ls["transitive"] {
 				okAll, why = false, fmt.Sprintf("%s is expanded after the $ref was followed but with the caller's loader: nested fragment-only refs resolve against the wrong document", funcDisplay(g))
 			} else if !bs["update"] {
 				okAll, why = false, fmt.Sprintf("%s is expanded after the $ref was followed but the base path is not switched with updateBasePath", funcDisplay(g))
